@@ -83,7 +83,7 @@ def drive(c):
     raise RuntimeError('coroutine did not finish')
 
 
-def scenario(g, sim, users, attempts, tls, local, starttls, check):
+def scenario(g, sim, users, attempts, tls, local, starttls, check, real_prep=False):
     """users: [(name, password, admin)], attempts: [(kind, authcid, secret, authzid)].
     Returns error|None.  Values may be symbolic."""
     from contextlib import AsyncExitStack
@@ -97,8 +97,8 @@ def scenario(g, sim, users, attempts, tls, local, starttls, check):
     args = sim.FakeArgs()
     if tls:
         args.tls = True
-    cfg = Cfg.from_args(args, hash_context=_Hash(), cpu_subsystem=g['Subsystem'].for_asyncio(),
-                        invalid_user_sleep=0.0)
+    cfg = (g['Config'] if real_prep else Cfg).from_args(args, hash_context=_Hash(), cpu_subsystem=g['Subsystem'].for_asyncio(),
+                                                        invalid_user_sleep=0.0)
     login = g['Login'](cfg)
     for name, pw, admin in users:
         login.users_dict[name] = g['UserMetadata'](cfg, name, password=pw,
@@ -262,6 +262,40 @@ def _harness(nusers, nattempts):
     return fn
 
 
+def _h_lookalike():
+    """two accounts whose names differ by one arbitrary code point; the owner of one authenticates with its own
+    password and asks to act as the other (real SASLprep, modelled: ASCII exact, "mapped to nothing" exact)"""
+    def fn(eng):
+        from pysymex import fresh_str, SymStr, B, AND, Outcome
+        x = fresh_str(eng, 'x', 1, hi=0x7e)
+        eng.add(x.items[0].t >= 0x21)
+        e = fresh_str(eng, 'e', 1)
+        eng.add((e.items[0].t < 0xD800) | (e.items[0].t > 0xDFFF))
+        pos = eng.flip('extra_first')
+        u2 = SymStr((e.items + x.items) if pos else (x.items + e.items))
+        p1 = fresh_str(eng, 'p', 1, hi=0x7e)
+        p2 = fresh_str(eng, 'q', 1, hi=0x7e)
+        for p in (p1, p2):
+            eng.add(p.items[0].t >= 0x21)
+        users = [(x, p1, False), (u2, p2, False)]
+        attacker_is_long = eng.flip('attacker_has_the_longer_name')
+        cid, sec, zid = (u2, p2, x) if attacker_is_long else (x, p1, u2)
+        attempts = [('auth', cid, sec, zid, False)]
+        obligations = []
+
+        def ev(v, m):
+            return ''.join(chr(c) for c in v.concrete(m)) if hasattr(v, 'concrete') else v
+
+        def wit(m):
+            return {'users': [[ev(n, m), ev(p, m), a] for n, p, a in users], 'tls': False, 'local': True, 'starttls': False,
+                    'attempts': [[k, ev(c, m), ev(se, m), ev(z, m), nc] for k, c, se, z, nc in attempts], 'real_prep': True}
+        err = scenario(_g, _g['_sim'], users, attempts, False, True, False, lambda c, msg='': obligations.append(B(c)), True)
+        if err is not None:
+            return Outcome(False, witness=wit, info=err)
+        return Outcome(AND(*obligations), witness=wit)
+    return fn
+
+
 # ---------------------------------------------------------------- the SASL exchange on the wire
 WIRE_USERS = [('u', 'p', False), ('a', 'q', True)]
 
@@ -353,6 +387,9 @@ def harnesses(tier):
     wire.append(Harness('sasl_plain_on_the_wire[raw=5,byte1=NUL]', _h_sasl_wire(5, {1: 0}),
                         {'decoded_response_bytes': 5, 'shape': 'one-character authzid', 'users': WIRE_USERS}, replay='saslwire',
                         task_budget=60))
+    wire.append(Harness('lookalike_accounts', _h_lookalike(),
+                        {'users': 'x and x+<any code point> (either order)', 'attempt': 'own password, authzid = the other account',
+                         'saslprep': 'modelled: ASCII exact, B.1 (mapped to nothing) exact'}, replay='scenario', task_budget=60))
     return wire + [Harness('attempts[users=%d,n=%d]' % (u, n), _harness(u, n),
                     {'stored_users': u, 'attempts': n, 'strings': 'symbolic (1 character each, equality only)'},
                     replay='scenario', task_budget=60) for u, n in cfgs]
@@ -392,7 +429,8 @@ def replay(harness, w):
             attempts.append((kind, c.encode(), s.encode(), None, nc))
         else:
             attempts.append((kind, c, s, z, nc))
-    err = scenario(g, _sim, [tuple(u) for u in w['users']], attempts, w['tls'], w['local'], w['starttls'], check)
+    err = scenario(g, _sim, [tuple(u) for u in w['users']], attempts, w['tls'], w['local'], w['starttls'], check,
+                   w.get('real_prep', False))
     if err:
         bad.append(err)
     return {'violates': bool(bad), 'detail': bad[:3], 'category': (bad[0] if bad else '')[:70]}
